@@ -258,7 +258,7 @@ func udpGroups(th bool) []*group {
 	}
 	gs = append(gs, &group{
 		name: "ssnone-udp-server", desc: "direct.ShadowsocksNonePacketServerUnpacker in the NAT relay's buffer layout, then route, NewPacker, uplink re-pack for every outbound client, downlink pack",
-		parts: append([]part{newAlpha("ssnone-udp-server/alpha", nil, nil, socksAlpha, 0, L), newAlpha("ssnone-udp-server/alpha-after-domain-header", []byte{3}, nil, socksAlpha, 0, L-1)}, seedFamily("ssnone-udp-server", nil, noneSeeds, th, 30)...),
+		parts:         append([]part{newAlpha("ssnone-udp-server/alpha", nil, nil, socksAlpha, 0, L), newAlpha("ssnone-udp-server/alpha-after-domain-header", []byte{3}, nil, socksAlpha, 0, L-1)}, seedFamily("ssnone-udp-server", nil, noneSeeds, th, 30)...),
 		seedsMustPass: true,
 		run: func(w *worker, in []byte) {
 			a, n, st := refParseAddr(in)
@@ -272,7 +272,7 @@ func udpGroups(th bool) []*group {
 	})
 	gs = append(gs, &group{
 		name: "socks5-udp-server", desc: "direct.Socks5PacketServerUnpacker (RSV RSV FRAG + address), same relay steps",
-		parts: append([]part{newAlpha("socks5-udp-server/alpha", nil, nil, socksAlpha, 0, L), newAlpha("socks5-udp-server/alpha-after-header", []byte{0, 0, 0}, nil, socksAlpha, 0, L)}, seedFamily("socks5-udp-server", nil, s5Seeds, th, 30)...),
+		parts:         append([]part{newAlpha("socks5-udp-server/alpha", nil, nil, socksAlpha, 0, L), newAlpha("socks5-udp-server/alpha-after-header", []byte{0, 0, 0}, nil, socksAlpha, 0, L)}, seedFamily("socks5-udp-server", nil, s5Seeds, th, 30)...),
 		seedsMustPass: true,
 		run: func(w *worker, in []byte) {
 			a, pl, ok := refSocks5Packet(in)
@@ -283,7 +283,7 @@ func udpGroups(th bool) []*group {
 	tunnel := conn.AddrFromIPPort(netip.MustParseAddrPort("198.51.100.1:53"))
 	gs = append(gs, &group{
 		name: "direct-udp-server", desc: "direct.DirectPacketServerPackUnpacker (tunnel: every datagram goes to the configured target), same relay steps",
-		parts: []part{newAlpha("direct-udp-server/alpha", nil, nil, byteAlpha(0x00, 0xff), 0, 4), &listPart{name: "direct-udp-server/seeds", items: payloads}},
+		parts:         []part{newAlpha("direct-udp-server/alpha", nil, nil, byteAlpha(0x00, 0xff), 0, 4), &listPart{name: "direct-udp-server/seeds", items: payloads}},
 		seedsMustPass: true,
 		run: func(w *worker, in []byte) {
 			srv := direct.NewDirectUDPNATServer(tunnel, true)
@@ -294,7 +294,7 @@ func udpGroups(th bool) []*group {
 	})
 	gs = append(gs, &group{
 		name: "ssnone-udp-client", desc: "direct.ShadowsocksNonePacketClientUnpacker on a datagram from the far server, then downlink re-pack by every server packer",
-		parts: append([]part{newAlpha("ssnone-udp-client/alpha", nil, nil, socksAlpha, 0, L)}, seedFamily("ssnone-udp-client", nil, noneIPSeeds, th, 30)...),
+		parts:         append([]part{newAlpha("ssnone-udp-client/alpha", nil, nil, socksAlpha, 0, L)}, seedFamily("ssnone-udp-client", nil, noneIPSeeds, th, 30)...),
 		seedsMustPass: true, setup: setupSSServerUnpacker,
 		run: func(w *worker, in []byte) {
 			a, n, st := refParseAddr(in)
@@ -307,7 +307,7 @@ func udpGroups(th bool) []*group {
 	})
 	gs = append(gs, &group{
 		name: "socks5-udp-client", desc: "direct.Socks5PacketClientUnpacker on a datagram from the far SOCKS5 server, then downlink re-pack",
-		parts: append([]part{newAlpha("socks5-udp-client/alpha", nil, nil, socksAlpha, 0, L), newAlpha("socks5-udp-client/alpha-after-header", []byte{0, 0, 0}, nil, socksAlpha, 0, L)}, seedFamily("socks5-udp-client", nil, s5IPSeeds, th, 30)...),
+		parts:         append([]part{newAlpha("socks5-udp-client/alpha", nil, nil, socksAlpha, 0, L), newAlpha("socks5-udp-client/alpha-after-header", []byte{0, 0, 0}, nil, socksAlpha, 0, L)}, seedFamily("socks5-udp-client", nil, s5IPSeeds, th, 30)...),
 		seedsMustPass: true, setup: setupSSServerUnpacker,
 		run: func(w *worker, in []byte) {
 			a, pl, ok := refSocks5Packet(in)
@@ -316,7 +316,7 @@ func udpGroups(th bool) []*group {
 	})
 	gs = append(gs, &group{
 		name: "direct-udp-client", desc: "direct.DirectPacketClientUnpacker (pass-through), then downlink re-pack",
-		parts: []part{newAlpha("direct-udp-client/alpha", nil, nil, byteAlpha(0x00, 0xff), 0, 4), &listPart{name: "direct-udp-client/seeds", items: payloads}},
+		parts:         []part{newAlpha("direct-udp-client/alpha", nil, nil, byteAlpha(0x00, 0xff), 0, 4), &listPart{name: "direct-udp-client/seeds", items: payloads}},
 		seedsMustPass: true, setup: setupSSServerUnpacker,
 		run: func(w *worker, in []byte) {
 			src := downlinkSources[int(w.seq)%len(downlinkSources)]
